@@ -51,7 +51,8 @@ type flowOpts struct {
 // hashes were derived from.
 type acct struct {
 	pid           string
-	u             *world.User // the stored record at pre-state (a copy)
+	u             *world.UserBase // the stored fields at pre-state (a copy)
+	lastCode      string
 	hasPw         bool
 	pw            string
 	otps          []string // plaintext one-time passwords whose hashes are stored
@@ -172,7 +173,8 @@ func idx(i int) string { return string(rune('0' + i)) }
 func (f *flow) symbolicAccount(i int, pid string) *acct {
 	n := idx(i)
 	a := &acct{pid: pid}
-	u := &world.User{PID: pid, Email: "mail" + n + "@m"}
+	rec := world.NewUser(pid, "mail"+n+"@m")
+	u := &rec.UserBase
 	a.hasPw = verif.Bool("hasPw" + n)
 	a.pw = verif.String("pw"+n, 3)
 	u.Password = verif.Ite(a.hasPw, world.MakeHash(a.pw, "saltsal"+n), "")
@@ -206,7 +208,8 @@ func (f *flow) symbolicAccount(i int, pid string) *acct {
 	a.hasCodes = verif.Bool("hasCodes" + n)
 	u.RecoveryCodes = verif.Ite(a.hasCodes, strings.Join(cs, ","), "")
 	u.TOTPSecretKey = verif.Ite(verif.Bool("hasTOTP"+n), "TOTPSECRET"+n, "")
-	u.TOTPLastCode = verif.String("lastCode"+n, 3)
+	a.lastCode = verif.String("lastCode"+n, 3)
+	rec.TOTPLastCode = a.lastCode
 	u.SMSPhoneNumber = verif.Ite(verif.Bool("hasSMS"+n), "+100"+n, "")
 	// confirm / recover tokens
 	a.hasConfirmTok = verif.Bool("hasConfirmTok" + n)
@@ -224,8 +227,13 @@ func (f *flow) symbolicAccount(i int, pid string) *acct {
 		a.rmRaw = append(a.rmRaw, raw)
 		a.rmSerial = append(a.rmSerial, f.w.Store.Seed(pid, rememberHash(raw)))
 	}
-	a.u = u.Clone()
-	f.w.Store.Users = append(f.w.Store.Users, u)
+	a.u = rec.Clone().B()
+	if f.o.userPlain {
+		f.w.Store.Plain = true
+		f.w.Store.Users = append(f.w.Store.Users, &world.PlainUser{UserBase: *rec.Clone().B()})
+	} else {
+		f.w.Store.Users = append(f.w.Store.Users, rec)
+	}
 	return a
 }
 
@@ -330,4 +338,20 @@ func (f *flow) serve(route string, vals *world.Values, form map[string]string) (
 func (f *flow) serveHandler(h http.Handler, method, path string) (rec *world.Recorder, panicked bool) {
 	panicked, _ = world.Try(func() { rec = f.w.Serve(h, world.Request(method, path, "")) })
 	return
+}
+
+type valuesAlias struct{}
+
+// symbolicValues2: a second arbitrary request body (distinct input labels).
+func symbolicValues2() *world.Values {
+	return &world.Values{
+		PID:          verif.String("v2_pid", 3),
+		Password:     verif.String("v2_password", 3),
+		Token:        verif.String("v2_token", 8),
+		Code:         verif.String("v2_code", 6),
+		RecoveryCode: verif.String("v2_rcode", 3),
+		PhoneNumber:  verif.String("v2_phone", 5),
+		Remember:     verif.Bool("v2_remember"),
+		Invalid:      verif.Bool("v2_invalid"),
+	}
 }
